@@ -124,7 +124,8 @@ impl MergeableAccumulator {
     #[must_use]
     pub fn finalize_sum(&self) -> Value {
         if self.count == 0 {
-            Value::Null
+            // SUM over no values is 0, as in the pull-based aggregate operators
+            Value::Int64(0)
         } else {
             Value::Float64(self.sum)
         }
